@@ -49,6 +49,15 @@ claimed["C16"] = ("contract-based deductive verification: postconditions of the 
   "Trusted: decimal printing injective; kidsOK invariant.",
   "DESIGN.md §5 C16")
 
+claimed["C12"] = ("contract-based deductive verification over a ghost file-system model: pre/postconditions and an after-every-call invariant as VCs from go/ssa, discharged by z3/cvc5",
+  "With assumed POSIX contracts for rename (atomic), create (truncates), copy (may stop half-way), remove, chmod, stat: CreateTempFile never touches the target and gives the temporary file the target's mode; FinishWriteInPlace(false) leaves the target as it was, FinishWriteInPlace(true) ends with the complete new content or reports an error with the target untouched; evaluateSequence / evaluateAll return a non-nil error only with the target unchanged (the deferred finisher runs FinishWriteInPlace(completedSuccessfully) only when the command has not failed). Known finding F9: the copy fallback truncates first (crash window and failure case), carved out by obligation with a replayed witness. Partial: kernel behaviour, kill timing and --front-matter byte preservation are not decided.",
+  "Trusted: the ghost file-system contracts in the contract file (os.Rename/Create/Open/Remove/Chmod/Stat/CreateTemp, io.Copy); evaluation and printing are assumed not to touch the target except through these calls; the interface-level contract of writeInPlaceHandler.",
+  "DESIGN.md §5 C12")
+claimed["C19"] = ("contract-based deductive verification: error-propagation obligations (ghost flag) generated without annotation from go/ssa for every yq function that returns an error, discharged by z3/cvc5; plus the in-place/exit contracts of the cmd package",
+  "For each of the 370 yq functions that return an error, at every return: if a callee's error was tested against nil (and not inspected, wrapped or deliberately recovered from — the recoveries are listed in tables/errprop_handled.json), the function returns a non-nil error — for all inputs; evaluateSequence/evaluateAll return their evaluation error through the deferred in-place finisher. Partial: -e bookkeeping of printNode, exit codes in main/cobra, format auto-detection tables and 'nothing dropped inside library encoders' are not decided yet.",
+  "Trusted: the classification of an error value as 'plain' (only compared with nil) is syntactic; handled-error table; external libraries.",
+  "DESIGN.md §5 C19")
+
 not_yet = {}
 
 def main():
